@@ -42,6 +42,12 @@ CLAIMED["C07"] = (
     "Trusted: lowering + int-mode C integer runtime (validated against the compiled module per run), SX string/int rendering model, z3. Outside (this version): ATOM/HETATM record assembly, CRYST1, CONECT, coordinate/B-factor column widths.",
     "DESIGN.md §4 C07")
 
+CLAIMED["C03"] = (
+    "KX: codec.pyx and kmeralphabet.pyx kernels lowered from source over symbolic bytes/codes (bit-vectors with a z3 array for the 256-entry table; mathematical ints for the radix arithmetic); alphabets, sequences, translation by solver-driven case split on the real classes against independent oracles (IUPAC table, NCBI table 1, ORF definition)",
+    "Bounded model checking. Codec: for alphabets of <= 3 (5) symbolic distinct bytes and <= 2 (3) symbolic symbols/codes over all 256 byte values, decode(encode(s)) == s, foreign symbols and codes >= |A| raise, map_sequence_code is exact and rejects out-of-range codes. K-mers: code = radix sum incl. the rolling update, split inverts it, illegal codes raise (|A| in {2,4,5,20}, k <= 4, spaced models). E-class: 14 alphabets x all pairs for mappers/extends/common_alphabet; all nucleotide/protein sequences up to length 3 (4) vs Python strings and the IUPAC pairing; all 64 codons and all sequences start+4 (7) bases: ORFs vs definition, derived codon tables leave their parent unchanged.",
+    "Trusted: lowering + typed runtime (validated against the compiled modules per run), z3, numpy in the E-class parts. Outside: alphabets beyond the menu, sequences longer than the bound, codon tables other than the default and 2 derived ones. Known finding: KmerAlphabet.fuse accepts code == |A|.",
+    "DESIGN.md §4 C03")
+
 NOT_APPLICABLE = {
     "C15": "float results of numpy/LAPACK (linalg solves, trigonometry, argmin over float images): no integer/string logic in front of the C boundary that a solver could reason about; an abstraction over the reals would verify a model of numpy, not the code (DESIGN §6)",
     "C16": "optimality/properness come from np.linalg.svd/det (LAPACK behind FFI) on float32 data; no encodable source; z3 terms cannot pass astype(float32) (DESIGN §6)",
